@@ -39,7 +39,8 @@ check('C17', 'model_checking',
       'pulses, both forms must give bit-identical right-hand sides and (sampled) identical solved reports, invalid numbers must be diagnostics; '
       'a skin-effect / insulation load given for one object must cover every pulse with a half segment on it exactly once; exactly the named '
       'pulses are driven, in any order of naming (a pulse on a grounded end first); the load terms of the matrix of every multi-pulse '
-      'attachment form equal those of the same antenna with one single-pulse load per attached pulse.',
+      'attachment form equal those of the same antenna with one single-pulse load per attached pulse, and the per-object description the '
+      'program writes for it (as_cmdline, load_by_geo) names the same pulses when read back.',
       'Trusted: TLC, concretiser, report parser. Wires only. Solved-report comparison on a seeded sample (10 % quick, 30 % thorough).',
       'TLC model checking of Topology.tla + spec-to-code replay through main()', 'DESIGN.md 4 C17')
 
@@ -192,7 +193,8 @@ check('C10', 'model_checking',
       'Clause 1 (moment at the pulse point): the radiation sum is evaluated by harness/lattice.py from the pulse table of spec/Topology.tla '
       '(TLC, every configuration; image terms and the grounded-pulse rule over ground; tapered wires in half of the cases) on seeded lattice '
       'coordinates; the real compute_far_field with injected complex currents must reproduce e_theta / e_phi to 1e-9 of the maximum and the '
-      'dBi values to 1e-3 dB at arbitrary directions, powers and distances. Relations: gain = |E|^2 r^2 / (59.96 P) per polarisation between '
+      'dBi values to 1e-3 dB at arbitrary directions (zenith angles also below 0 and above 180 degrees; half of the cases repeat the '
+      'request with the same Angle objects after changing their fields), powers and distances. Relations: gain = |E|^2 r^2 / (59.96 P) per polarisation between '
       'the two tables, total = power sum, V/m ~ sqrt(P)/r, rows 360 degrees apart identical, zenith total independent of azimuth. A third of '
       'the configurations are also SOLVED with two generators 90 degrees apart (one usually absorbing power): the dBi table must be the '
       'radiation sum of the solved currents over the input power sum Re(V I*)/2 computed by the harness.',
